@@ -5,6 +5,7 @@ import (
 	"fmt"
 	"go/token"
 	"go/types"
+	"os"
 	"strconv"
 	"strings"
 
@@ -203,6 +204,9 @@ func init() {
 			}
 		}
 		in.res.Traces = append(in.res.Traces, label+"="+sb.String())
+		if os.Getenv("VERIF_DEBUG_TERMS") != "" && len(bs) > 0 && bs[0].Op == OApp && len(bs[0].Args) == 1 {
+			fmt.Fprintf(os.Stderr, "TRACE-TERM %s = %s\n", label, bs[0].Args[0].str(12))
+		}
 		return nil
 	}
 	intrinsics[rtPkg+"TraceInt"] = func(in *Interp, _ *frame, _ *ssa.Function, a []Value) Value {
